@@ -79,6 +79,8 @@ type S struct {
 	detached        map[string]bool // ns|shard group -> index created while delReady: DROP SERIES does not reach it
 	everMst         map[string]bool // ns|measurement ever written since the namespace was created
 	tainted         map[string]bool // ns|measurement: a DROP SERIES hit it while a greater measurement name was in the index
+	redropped       map[string]bool // ns|series dropped by DROP SERIES at least once in the measurement's current incarnation
+	frozen          map[string]bool // ns|series live again and a restart happened since: the next write gets a second live id
 	noExcl          bool            // replays of known findings: evaluate every read
 	grace           time.Duration   // how long a wrong read may take to become right (30 s)
 
@@ -118,7 +120,7 @@ func noteLate(class string, ms int64, example string) {
 
 func newS(h *hist.H, c *ev.Case, fail func(string, ...any)) *S {
 	s := &S{h: h, c: c, w: newWorld(), fail: fail, visible: map[string]bool{}, unflushed: map[string]bool{}, inFiles: map[string]bool{}, shapesAfterNT: map[string]bool{},
-		grace: 30 * time.Second, delReady: map[string]bool{}, groupSeen: map[string]bool{}, detached: map[string]bool{}, everMst: map[string]bool{}, tainted: map[string]bool{}}
+		grace: 30 * time.Second, delReady: map[string]bool{}, groupSeen: map[string]bool{}, detached: map[string]bool{}, everMst: map[string]bool{}, tainted: map[string]bool{}, redropped: map[string]bool{}, frozen: map[string]bool{}}
 	s.w.add("db0", "db0", "")
 	return s
 }
@@ -239,6 +241,12 @@ func (s *S) comeBack(when string) {
 		// second misses the rows): every series is awaited again after a restart
 		s.visible = map[string]bool{}
 	}
+	for sk := range s.redropped {
+		i := strings.Index(sk, "|")
+		if n := s.w.ns[sk[:i]]; n != nil && n.St.Series[sk[i+1:]] != nil {
+			s.frozen[sk] = true
+		}
+	}
 	for gk := range s.groupSeen {
 		s.delReady[gk[:strings.Index(gk, "|")]] = true
 		s.detached[gk] = false
@@ -296,6 +304,12 @@ func (s *S) drop(d *Drop) {
 				}
 			}
 			s.droppedKeys = append(s.droppedKeys, sk)
+			delete(s.frozen, sk)
+			if d.Kind == "series" {
+				s.redropped[sk] = true
+			} else {
+				delete(s.redropped, sk)
+			}
 		}
 	}
 	switch d.Kind {
@@ -320,6 +334,13 @@ func (s *S) drop(d *Drop) {
 	case "measurement":
 		// database-wide (every retention policy), as in InfluxDB
 		for _, x := range s.w.ofDB(n.DB) {
+			for _, m := range []map[string]bool{s.redropped, s.frozen} {
+				for k := range m {
+					if strings.HasPrefix(k, x.Name+"|"+d.Mst+",") || k == x.Name+"|"+d.Mst {
+						delete(m, k)
+					}
+				}
+			}
 			delete(s.tainted, x.Name+"|"+d.Mst)
 			forget(x.Name, x.dropMeasurement(d.Mst))
 			s.droppedMsts = append(s.droppedMsts, x.Name+"|"+d.Mst)
@@ -345,7 +366,7 @@ func (s *S) drop(d *Drop) {
 
 func (s *S) forgetIndexes(ns string) {
 	delete(s.delReady, ns)
-	for _, m := range []map[string]bool{s.everMst, s.tainted} {
+	for _, m := range []map[string]bool{s.everMst, s.tainted, s.redropped, s.frozen} {
 		for k := range m {
 			if strings.HasPrefix(k, ns+"|") {
 				delete(m, k)
@@ -827,6 +848,19 @@ func runHistory(t *rapid.T, c *ev.Case) {
 		}
 		s.exec(Op{Kind: "check", Reads: rs})
 	}
+	// known finding: after a restart, a write to a live series that has an older dropped incarnation gets a second
+	// live series id (rows of one series out of order, drops that miss rows): such points are left out
+	thaw := func(ns string, ps []hist.PointJ) []hist.PointJ {
+		var out []hist.PointJ
+		for _, p := range ps {
+			if s.frozen[ns+"|"+model.SeriesKeyOf(p.Mst, p.Tags)] {
+				c.Excluded("write-after-restart-to-a-live-series-that-was-dropped-and-rewritten-before")
+				continue
+			}
+			out = append(out, p)
+		}
+		return out
+	}
 	write := func(t *rapid.T) {
 		ns := s.pickNS(t)
 		k := rapid.IntRange(1, 10).Draw(t, "n")
@@ -834,7 +868,9 @@ func runHistory(t *rapid.T, c *ev.Case) {
 		for i := range ps {
 			ps[i] = g.point(t, ns)
 		}
-		s.exec(Op{Kind: "write", NS: ns, Points: ps})
+		if ps = thaw(ns, ps); len(ps) > 0 {
+			s.exec(Op{Kind: "write", NS: ns, Points: ps})
+		}
 	}
 	// rewrite: new points for series / measurements that were dropped (they must behave as fresh ones)
 	rewrite := func(t *rapid.T) {
@@ -854,6 +890,9 @@ func runHistory(t *rapid.T, c *ev.Case) {
 		ps := make([]hist.PointJ, k)
 		for j := range ps {
 			ps[j] = hist.PointJ{Mst: parts[0], Tags: tags, T: g.timeIdx(t), Fields: g.fields(t)}
+		}
+		if ps = thaw(ns, ps); len(ps) == 0 {
+			return
 		}
 		c.Class("write-to-dropped-series-or-measurement")
 		s.exec(Op{Kind: "write", NS: ns, Points: ps})
